@@ -30,6 +30,9 @@ def simple_word_splitter(text: str) -> list[str]:
 # to avoid conflicts with real content.
 _PLACEHOLDER_PREFIX = "\x00AC"
 _PLACEHOLDER_SUFFIX = "\x00"
+_PLACEHOLDER_PATTERN = re.compile(
+    re.escape(_PLACEHOLDER_PREFIX) + r"([0-9]+)" + re.escape(_PLACEHOLDER_SUFFIX)
+)
 
 
 def _extract_atomic_constructs(text: str) -> tuple[dict[int, str], str]:
@@ -61,13 +64,15 @@ def _restore_atomic_constructs(tokens: list[str], construct_map: dict[int, str])
     """
     Restore original constructs from placeholders in token list.
     """
-    result: list[str] = []
-    for token in tokens:
-        for idx, construct in construct_map.items():
-            placeholder = f"{_PLACEHOLDER_PREFIX}{idx}{_PLACEHOLDER_SUFFIX}"
-            token = token.replace(placeholder, construct)
-        result.append(token)
-    return result
+    if not construct_map:
+        return tokens
+
+    # One regex pass per token: replacing every placeholder in every token in turn is
+    # quadratic in the number of constructs of a paragraph.
+    def restore(match: re.Match[str]) -> str:
+        return construct_map.get(int(match.group(1)), match.group(0))
+
+    return [_PLACEHOLDER_PATTERN.sub(restore, token) for token in tokens]
 
 
 class _HtmlMdWordSplitter:
